@@ -190,71 +190,51 @@ def callOf (B : Builtins) (k : CallKind) (name : Str) (vs : List Val) (mac : Val
   | .ctor tn => applyArgs (B.ctor tn) vs
   | .none => .err .runtime
 
+/-- A failing value stays the failure it is; any other value is passed on. -/
+def Val.andThen (v : Val) (f : Val → Val) : Val :=
+  match v with
+  | .err k => .err k
+  | r => f r
+
 /-- `all`: the first element whose predicate fails or is falsy decides. (`g`: the body as a function of the element) -/
 def allVal (g : Val → Val) : List Val → Val
   | [] => .bool true
-  | v :: vs =>
-    match g v with
-    | .err k => .err k
-    | r => if truthy r then allVal g vs else .bool false
+  | v :: vs => (g v).andThen fun r => if truthy r then allVal g vs else .bool false
 
 def existsVal (g : Val → Val) : List Val → Val
   | [] => .bool false
-  | v :: vs =>
-    match g v with
-    | .err k => .err k
-    | r => if truthy r then .bool true else existsVal g vs
+  | v :: vs => (g v).andThen fun r => if truthy r then .bool true else existsVal g vs
 
 /-- `exists_one` with `n` hits so far: the second hit decides (false) at once. -/
 def oneVal (g : Val → Val) : List Val → Nat → Val
   | [], n => .bool (n == 1)
   | v :: vs, n =>
-    match g v with
-    | .err k => .err k
-    | r => if truthy r then (if n ≥ 1 then .bool false else oneVal g vs (n + 1)) else oneVal g vs n
+    (g v).andThen fun r => if truthy r then (if n ≥ 1 then .bool false else oneVal g vs (n + 1)) else oneVal g vs n
+
+/-- Put `x` in front of a list value (a failure stays). -/
+def consVal (x : Val) : Val → Val
+  | .list out => .list (x :: out)
+  | e => e
 
 def filterVal (g : Val → Val) : List Val → Val
   | [] => .list []
-  | v :: vs =>
-    match g v with
-    | .err k => .err k
-    | r =>
-      match filterVal g vs with
-      | .list out => .list (if truthy r then v :: out else out)
-      | e => e
+  | v :: vs => (g v).andThen fun r => if truthy r then consVal v (filterVal g vs) else filterVal g vs
 
 def mapVal (g : Val → Val) : List Val → Val
   | [] => .list []
-  | v :: vs =>
-    match g v with
-    | .err k => .err k
-    | r =>
-      match mapVal g vs with
-      | .list out => .list (r :: out)
-      | e => e
+  | v :: vs => (g v).andThen fun r => consVal r (mapVal g vs)
 
 /-- `map(x, p, e)`: the transform of the elements whose predicate is truthy. -/
 def map3Val (gp ge : Val → Val) : List Val → Val
   | [] => .list []
   | v :: vs =>
-    match gp v with
-    | .err k => .err k
-    | r =>
-      if truthy r then
-        match ge v with
-        | .err k => .err k
-        | r2 =>
-          match map3Val gp ge vs with
-          | .list out => .list (r2 :: out)
-          | e => e
+    (gp v).andThen fun r =>
+      if truthy r then (ge v).andThen fun r2 => consVal r2 (map3Val gp ge vs)
       else map3Val gp ge vs
 
 def reduceVal (g : Val → Val → Val) : List Val → Val → Val
   | [], acc => acc
-  | v :: vs, acc =>
-    match g acc v with
-    | .err k => .err k
-    | r => reduceVal g vs r
+  | v :: vs, acc => (g acc v).andThen fun r => reduceVal g vs r
 
 /-- `FMT` on the segment values. -/
 def fmtVal (vs : List Val) : Val :=
